@@ -38,7 +38,7 @@ class SCat:
 
     def __init__(self, codes, categories, ordered=False):
         self.codes = codes if isinstance(codes, SArr) else _A(codes)
-        if self.codes.dtype.kind not in "iu":
+        if self.codes.dtype.kind not in "iu" and not isinstance(self.codes, symnp.MaskedSel):
             self.codes = self.codes.astype("int64")
         self.categories = _pd.Index(categories)
         self.ordered = ordered
@@ -934,6 +934,8 @@ class SFrame:
         r = SFrame()
         r._cols = {f(k): c for k, c in self._cols.items()}
         r._index = self._index
+        if "_index_cols" in self.__dict__:
+            r._index_cols = self._index_cols
         return r
 
     def reset_index(self, drop=False, **kw):
@@ -1085,6 +1087,8 @@ class _Loc:
                     col = obj._cols[ck]
                     if isinstance(col, SArr):
                         return SSeries(_col=col[sel if isinstance(sel, SArr) else _A(sel)], name=ck)
+                    if isinstance(col, SCat):
+                        return SSeries(_col=SCat(col.codes[sel if isinstance(sel, SArr) else _A(sel)], col.categories, col.ordered), name=ck)
                     return obj[ck]._rows(_mask_positions(sel, len(obj)))
             raise Inconclusive("loc[rows, cols] getter form")
         kind, sel = self._row_positions(k)
